@@ -446,6 +446,7 @@ func (s *esSummary) marshal() (string, error) {
 // ---------------------------------------------------------------- the interpreter of protocol lines
 
 type esInterp struct {
+	viaFile bool // the next `post` goes through the file route
 	c *Ctx
 
 	variant string
@@ -673,7 +674,24 @@ func (in *esInterp) exec(w []string) string {
 			}
 			body, explorerStyle = t, nil
 		}
-		st, resp, p := in.eng.do("POST", "/api/v1/solutions", "text/csv", body)
+		var st int
+		var resp, p string
+		if w[0] == "post" && in.viaFile {
+			// the START-UP route of cmd/cremengine (--SolutionSummaryFile): the same text handed over as a file; it reports through
+			// the log only, so whether it was taken is read from what the engine serves as its solutions text afterwards
+			in.viaFile = false
+			in.c.Stat("summary handed over through SetSolutionSummary (file route)")
+			f := filepath.Join(in.c.Out, fmt.Sprintf("summary-%d.csv", os.Getpid()))
+			must(os.WriteFile(f, []byte(body), 0o644))
+			p = protect(func() { in.eng.mux.SetSolutionSummary(f) })
+			os.Remove(f)
+			st = 400
+			if st2, served, p2 := in.eng.do("GET", "/api/v1/solutions", "", ""); p == "" && p2 == "" && st2 == 200 && served == body {
+				st = 200
+			}
+		} else {
+			st, resp, p = in.eng.do("POST", "/api/v1/solutions", "text/csv", body)
+		}
 		res := ""
 		switch {
 		case p != "":
@@ -989,6 +1007,23 @@ func (in *esInterp) patch(enc string) string {
 			if has && v > in.limit && valid == true {
 				in.fail("enginesummary:valid-flag-not-evaluated", fmt.Sprintf("scenario limit %s = %v; after PATCH /api/v1/model with encoding %q the model has %s = %v, yet GET /api/v1/model reports ValidAgainstScenario=true", varMaxKey[in.limVar], in.limit, enc, varNames[in.limVar], v))
 			}
+			// ... and a client cannot TALK the engine into it: a PATCH that changes no action but carries the reserved attribute
+			// itself leaves the flag what the model says (on the pinned code the attribute is re-derived after the join, so this
+			// request changes nothing that is served)
+			if has && v > in.limit {
+				claim, _ := json.Marshal([]map[string]interface{}{{"Name": "ValidAgainstScenario", "Value": true}})
+				if st2, _, p2 := in.eng.do("PATCH", "/api/v1/model", "application/json", string(claim)); p2 == "" && st2 == 200 {
+					if st3, resp3, p3 := in.eng.do("GET", "/api/v1/model", "", ""); p3 == "" && st3 == 200 {
+						var s3 esSolution
+						if json.Unmarshal([]byte(resp3), &s3) == nil {
+							in.c.Stat("C03: reserved ValidAgainstScenario attribute PATCHed over an invalid model")
+							if v3, has3 := s3.attr("ValidAgainstScenario"); has3 && v3 == true {
+								in.fail("enginesummary:valid-flag-not-evaluated", fmt.Sprintf("scenario limit %s = %v; the model at encoding %q has %s = %v; after PATCH /api/v1/model [{Name: ValidAgainstScenario, Value: true}] (no action changed) GET /api/v1/model reports ValidAgainstScenario=true", varMaxKey[in.limVar], in.limit, enc, varNames[in.limVar], v))
+							}
+						}
+					}
+				}
+			}
 		}
 	}
 	// ---- the property: a non-as-is row's encoding is a member; an encoding of no row is not
@@ -1195,6 +1230,10 @@ func (g *esGen) exercise(text string, source string) bool {
 		// crem's writer no longer lays the summary out as `, `-separated rows under Solution, …, Actions, Summary:
 		// the correspondence cannot be established (the model answers `splittable`)
 		in.do("layout " + esHx(text))
+		// whatever the layout: a summary that crem's own writer produced for this scenario must be accepted by the engine
+		if res := in.do("posttext " + esHx(text)); res != "ok" && res != "no-engine" {
+			in.fail("enginesummary:summary-rejected", fmt.Sprintf("a summary written by crem's own writer (%s, %d bytes) is not laid out as the engine reads it (%v) and POST /api/v1/solutions answers %s", source, len(text), err, res))
+		}
 		return false
 	}
 	c.Stat(fmt.Sprintf("summary source=%s", source))
@@ -1205,7 +1244,10 @@ func (g *esGen) exercise(text string, source string) bool {
 		in.fail("enginesummary:summary-rejected", "re-marshalling the parsed rows of a written summary does not reproduce its text")
 		return false
 	}
+	// a summary no earlier one of which was accepted by this engine (so that "served text == this text" tells acceptance)
+	in.viaFile = in.posted == nil && g.r.Chance(0.3)
 	post := in.do("post")
+	in.viaFile = false
 	c.Stat("post " + post)
 	for _, r := range s.rows {
 		kind := "plain"
@@ -1582,6 +1624,8 @@ func suiteEngineSummaries(c *Ctx) {
 			size = 41 + g.r.Intn(30) // beyond 40 solutions: three-digit `k-of-n` labels start at 100, two-digit ones here
 		case i%40 == 27 && c.Thorough():
 			size = 100 + g.r.Intn(30)
+		case i%40 == 34 && in.n() >= 12:
+			size = 1000 + g.r.Intn(60) // four-digit set sizes: numbers in labels and notes get a fourth digit (and, printed localised, a separator)
 		}
 		family := "multi"
 		if size > 0 && size <= 40 && g.r.Chance(0.12) {
